@@ -76,6 +76,13 @@ namespace sim
 			chrono::high_resolution_clock::time_point now
 				= chrono::high_resolution_clock::now();
 
+#ifdef LIBSIMULATOR_VERIF
+			// verification hook: the boundary between the timers' completions
+			// being posted and the first of them running (reported outside the
+			// lock, the harness may cancel timers)
+			bool timers_fired = false;
+			{
+#endif
 			std::lock_guard<std::mutex> l(m_timer_queue_mutex);
 			if (!m_timer_queue.empty()) {
 				asio::high_resolution_timer* next_timer = *m_timer_queue.begin();
@@ -94,8 +101,15 @@ namespace sim
 					next_timer->fire(boost::system::error_code());
 					++last_executed;
 					++ret;
+#ifdef LIBSIMULATOR_VERIF
+					timers_fired = true;
+#endif
 				}
 			}
+#ifdef LIBSIMULATOR_VERIF
+			}
+			if (timers_fired && verif::step_hook) verif::step_hook(verif::after_advance);
+#endif
 
 //			std::fprintf(stderr, "run: last_executed: %d stopped: %d timer-queue: %d\n"
 //				, int(last_executed), m_stopped, int(m_timer_queue.size()));
